@@ -134,6 +134,10 @@ def _gen_once(rng, kind, tier):
                             good = False
                             break
                         c[ax] = rng.uniform(a0, a1)
+                        if rng.random() < 0.15:
+                            # next to a wall: complete droplet whose interface ends one to two widths before it
+                            gap = R + rng.uniform(1.0, 2.5) * w + h[ax]
+                            c[ax] = lo[ax] + gap if rng.random() < 0.5 else lo[ax] + L[ax] - gap
                 if not good:
                     break
                 if all(geom.distance(c, c2, periods) - R - R2 >= 12 * max(w, w2) + 2 * margin * float(h.max())
@@ -216,6 +220,10 @@ def _gen_once(rng, kind, tier):
                 if a0 >= a1:
                     break
                 z = float(rng.uniform(a0, a1))
+                if not spec["periodic_z"] and rng.random() < 0.3:
+                    # next to a wall: the droplet is complete, its interface ends one to two widths before the wall
+                    gap = R + rng.uniform(1.0, 2.5) * w + hz
+                    z = float(z0 + gap if rng.random() < 0.5 else z0 + hz * nz - gap)
                 if all(abs(z - z2) - R - R2 >= 12 * max(w, w2) + 2 * margin * hz for z2, R2, w2 in placed):
                     placed.append((z, R, w))
                     ok = True
